@@ -12,6 +12,7 @@ import (
 	"io"
 	"mime"
 	"net/http"
+	"reflect"
 	gort "runtime"
 	"sort"
 	"strings"
@@ -58,6 +59,10 @@ type Call struct {
 	OpClientBare bool   `json:"op_client_bare,omitempty"`
 	OpCtx        string `json:"op_ctx,omitempty"`     // "" | live | cancelled: the operation carries its own context
 	ReaderErr    bool   `json:"reader_err,omitempty"` // the caller's reader returns an error
+	// NewDefaultMT (sequential cases): the caller sets Runtime.DefaultMediaType to this value before the call; it holds
+	// for this and the later calls. (r6)
+	NewDefaultMT string `json:"new_default_mt,omitempty"`
+	def          string // the default media type in force when the call is made (set by Check)
 }
 
 // Case is one Runtime and the calls made on it.
@@ -71,6 +76,30 @@ type Case struct {
 	Concurrent bool     `json:"concurrent,omitempty"` // the calls are released together from a barrier
 	Warm       bool     `json:"warm,omitempty"`       // concurrent only: call 0 completes before the others start
 	Procs      int      `json:"procs,omitempty"`      // GOMAXPROCS during the case (0: unchanged)
+	// InPlace: the consumers are registered on the map client.New returned (rt.Consumers[k] = c, delete(rt.Consumers, k))
+	// instead of on a map of the caller's own; a Runtime created afterwards still comes with the stock consumers. (r6)
+	InPlace bool `json:"in_place,omitempty"`
+}
+
+// stockConsumers is what a Runtime fresh from client.New offers, recorded before any case ran.
+var stockConsumers = func() map[string]string {
+	out := map[string]string{}
+	for k, v := range client.New("example.test", "/", []string{"http"}).Consumers {
+		out[k] = fmt.Sprintf("%T", v)
+	}
+	return out
+}()
+
+func checkStock(what string) *kit.Violation {
+	fresh := client.New("other.test", "/", []string{"http"})
+	got := map[string]string{}
+	for k, v := range fresh.Consumers {
+		got[k] = fmt.Sprintf("%T", v)
+	}
+	if !reflect.DeepEqual(got, stockConsumers) {
+		return kit.Failf("SHARED-REGISTRY: %s, a Runtime fresh from client.New offers the consumers %v; before any Runtime was configured it offered %v", what, got, stockConsumers)
+	}
+	return nil
 }
 
 // Doubles -------------------------------------------------------------------------------------------
@@ -355,9 +384,20 @@ func Check(c Case) *kit.Violation {
 		rt.SetDebug(true)
 	}
 	rt.DefaultMediaType = c.DefaultMT
-	rt.Consumers = map[string]runtime.Consumer{}
+	if c.InPlace {
+		for k := range rt.Consumers {
+			delete(rt.Consumers, k)
+		}
+	} else {
+		rt.Consumers = map[string]runtime.Consumer{}
+	}
 	for _, k := range c.Registry {
 		rt.Consumers[k] = tagged{k}
+	}
+	if c.InPlace {
+		if v := checkStock("after one Runtime's consumers were replaced in place"); v != nil {
+			return v
+		}
 	}
 	rt.Context = newCtx(c.RtCtx, "runtime-context")
 
@@ -406,8 +446,17 @@ func Check(c Case) *kit.Violation {
 		e.hist.logf(i, "call %d: Submit returned result=%v err=%v", i, rec.res, rec.err)
 	}
 
+	for i := range c.Calls {
+		c.Calls[i].def = c.DefaultMT
+	}
 	if !c.Concurrent {
+		cur := c.DefaultMT
 		for i := range c.Calls {
+			if c.Calls[i].NewDefaultMT != "" {
+				cur = c.Calls[i].NewDefaultMT
+				rt.DefaultMediaType = cur
+			}
+			c.Calls[i].def = cur
 			submit(i)
 		}
 	} else {
@@ -538,7 +587,7 @@ func expect(c Case, call *Call) (expectation, string) {
 		out.consumers = append(append([]string{}, a.consumers...), b.consumers...)
 		return out
 	}
-	eff := c.DefaultMT
+	eff := call.def
 	if call.HasCT && call.CT != "" {
 		eff = call.CT
 	}
